@@ -1,56 +1,32 @@
-use std::ops::Index;
-
-use regex::Captures;
-use regex::Regex;
-
-use crate::util::error_exit;
-
 pub fn is_glob(s: &str) -> bool {
     s.contains("*") || s.contains('?')
 }
 
+/// Translates a glob into a regular expression: `*` is any run of characters, `?` is exactly
+/// one character, every other character matches only itself.
 pub fn convert_glob_to_pattern(s: &str) -> String {
-    let string = s.to_string();
-    let regex = Regex::new("(\\?|\\.|\\*|\\[|\\]|\\(|\\)|\\^|\\$)").unwrap();
-    let string = regex.replace_all(&string, |c: &Captures| {
-        match c.index(0) {
-            "." => "\\.",
-            "*" => ".*",
-            "?" => ".",
-            "[" => "\\[",
-            "]" => "\\]",
-            "(" => "\\(",
-            ")" => "\\)",
-            "^" => "\\^",
-            "$" => "\\$",
-            _ => error_exit("Error parsing glob expression", s),
-        }
-        .to_string()
-    });
-
-    format!("^(?i){}$", string)
+    convert_wildcards_to_pattern(s, '*', '?')
 }
 
+/// Translates a LIKE pattern into a regular expression: `%` is any run of characters, `_` is
+/// exactly one character, every other character matches only itself.
 pub fn convert_like_to_pattern(s: &str) -> String {
-    let string = s.to_string();
-    let regex = Regex::new("(%|_|\\?|\\.|\\*|\\[|\\]|\\(|\\)|\\^|\\$)").unwrap();
-    let string = regex.replace_all(&string, |c: &Captures| {
-        match c.index(0) {
-            "%" => ".*",
-            "_" => ".",
-            "?" => ".?",
-            "." => "\\.",
-            "*" => "\\*",
-            "[" => "\\[",
-            "]" => "\\]",
-            "(" => "\\(",
-            ")" => "\\)",
-            "^" => "\\^",
-            "$" => "\\$",
-            _ => error_exit("Error parsing LIKE expression", s),
-        }
-        .to_string()
-    });
+    convert_wildcards_to_pattern(s, '%', '_')
+}
 
-    format!("^(?i){}$", string)
+fn convert_wildcards_to_pattern(s: &str, multi: char, single: char) -> String {
+    let mut pattern = String::new();
+    let mut buf = [0u8; 4];
+
+    for c in s.chars() {
+        if c == multi {
+            pattern.push_str(".*");
+        } else if c == single {
+            pattern.push('.');
+        } else {
+            pattern.push_str(&regex::escape(c.encode_utf8(&mut buf)));
+        }
+    }
+
+    format!("^(?is){}$", pattern)
 }
